@@ -49,7 +49,9 @@ Definition check (c : kcase) : string :=
                    else if negb (dtype_eqb d dt) then "dtype:model=" ++ dtype_name d ++ ",impl=" ++ dtype_name dt
                    else let free := Qabs (x - efix) + Qabs (x + efix) in
                         let cond := Qabs (t / (t - t0)) in
-                        if Qle_bool (Qabs (v - x)) (ktol c * (cond * free + Qabs efix)) then "" else "value"
+                        if Qle_bool (Qabs (v - x)) (ktol c * (cond * free + Qabs efix)) then ""
+                        else if Qle_bool (Qabs (v - x)) ((2 # 100000) * (cond * free + Qabs efix))
+                        then "value-single-precision-level" else "value"
                | VVar _ (ENaN _) _ _ => "model-NaN"
                | VErr _ e => "model-raises-" ++ e
                | _ => "shape"
